@@ -145,6 +145,18 @@ PROPS = {
   "note": TB + "Only the stop token and two user-defined query CPOs are modelled.",
   "design_ref": "5/C12",
  },
+ "C18": {
+  "claimed": True, "drivers": [],
+  "technique": "Coq proof over an executable AnyBox machine (any_object/any_unique/any_ref operation sequences; trace monitor proved to accept every model trace; refinement to an optional cell) + K3 exact-trace differential with the real wrappers; any_sender_of / any_scheduler / type_erased_stream by translation-validation style comparison",
+  "text": ("Theorems for EVERY configuration (inline size/alignment, noexcept requirement), every number of variables and EVERY operation sequence (construct, move-construct, move-assign incl. self and "
+           "different wrapped types, assign-value, swap, invoke, any_ref on top, destroy, with a throwing move or allocation at any point): each wrapped object destroyed exactly once, allocations and "
+           "deallocations balance with equal sizes, no copy ever, heap-stored objects are transferred by pointer, storage is inline iff the library's predicate holds, moves are noexcept when required, "
+           "the documented exception guarantees, and refinement to 'a box is an optional cell'. Tie: 6.6k generated sequences (quick) over 8 configurations x 12 wrapped-type classes agree event by "
+           "event. COMPARED ONLY (no theorem): any_sender_of inserted at a random node of the K2 expressions must reproduce the Calc model's trace of the un-wrapped expression (1560 scripts), "
+           "any_scheduler equality, type_erased_stream vs the plain stream."),
+  "note": TB + "One known finding (any_sender_of stop bridge, KNOWN_FINDINGS.txt). any_scheduler_ref operator== is identity of the referred object (documented difference, not flagged); plain any_sender_of forwards only the stop token.",
+  "design_ref": "5/C18",
+ },
  "C19": {
   "claimed": True, "drivers": [],
   "technique": "Coq proofs per wrapper: reachable-set closure certificates checked by the kernel (cancellable, canary, create_basic_sender, detach_on_cancel: finite thread sets) and a hand-written inductive invariant (stop_on_request, parametric n) + K1 lock-step with the real wrappers, ASan variants in the thorough tier",
